@@ -12,7 +12,16 @@ def base_project():
             {"name": "opt", "sources": ["opt.c"], "env": {"global": {"CFLAGS": ["-Dopt"]}}}]
     apps = [{"name": "a1", "sources": ["main.c"], "selects": ["lib"]}, {"name": "a2", "sources": ["m2.c"]},
             {"name": "a3", "sources": ["m3.c"], "selects": ["?opt"]}]
-    return directed.base(mods, apps, builders=[{"name": "b0"}, {"name": "b1", "env": {"X": "bx"}}, {"name": "b2", "env": {"X": "b2"}}])
+    f = directed.base(mods, apps, builders=[{"name": "b0"}, {"name": "b1", "env": {"X": "bx"}}, {"name": "b2", "env": {"X": "b2"}}])
+    f["laze-project.yml"][0]["contexts"][0]["tasks"] = {"info": {"cmd": [mcn_task_cmd()], "build": False}}
+    return f
+
+def mcn_task_cmd():
+    from . import main_common as mcn
+    return mcn.TASK_CMD
+
+def _unused():
+    return None
 
 def directed_histories():
     """one history per clause / former defect; each ends in the run that the clause is about"""
@@ -34,6 +43,8 @@ def directed_histories():
         H("equal define values changed together", [R({"define": ["X=1", "CFLAGS=1"]}), R({"define": ["X=0", "CFLAGS=0"]})]),
         H("define assigned, then appended", [R({"define": ["CFLAGS=-g"]}), R({"define": ["CFLAGS+=-g"]})]),
         H("define appended twice, then as one value", [R({"define": ["CFLAGS+=-a", "CFLAGS+=-b"]}), R({"define": ["CFLAGS+=-a -b"]})]),
+        H("task for one build after a run for all", [R({}), R({"builders": ["b1"], "apps": ["a1"]}, task="info")]),
+        H("task with -m for one builder after a run for all", [R({}), R({"builders": ["b2"]}, task="info", multiple=True)]),
         H("unknown builder after a run for all", [R({}), R({"builders": ["nosuch"]})]),
         H("unknown app after a run for all", [R({}), R({"apps": ["nosuch"]})]),
         H("narrower builders after a run for all", [R({}), R({"builders": ["b2", "b0"]})]),
